@@ -498,6 +498,44 @@ def patterns(rng, thorough=False):
                 w.ret(w.e(ir.FunctionCall(b.f, wa, w.nm("r"), getattr(ir, t))))
                 return b.m
             add("tail:%s:%s:%d" % (t, t2, unused_first), tail, "f", [t, t])
+    # G2. self tail calls that pass a parameter straight through into ANOTHER argument position
+    #     (fib(a, b, n) -> fib(b, a + b, n - 1); gcd(a, b) -> gcd(b, a % b)): the argument phis must be fed from
+    #     the current iteration's values, in parallel
+    for t in ("i32", "u8"):
+        def tail_rot(t=t):
+            from ppci import ir
+            b = B("fib", t, [t, t, t])
+            a, bb, n = b.p
+            rec, base = b.block("rec"), b.block("base")
+            b.cj(n, "==", b.c(0, t), base, rec)
+            b.at(base).ret(a)
+            b.at(rec)
+            s2 = b.bin(a, "+", bb, t)
+            n1 = b.bin(n, "-", b.c(1, t), t)
+            r = b.e(ir.FunctionCall(b.f, [bb, s2, n1], b.nm("r"), getattr(ir, t)))
+            b.ret(r)
+            w = B("f", t, [t, t], module=b.m)
+            cnt = w.bin(w.p[1], "&", w.c(7, t), t)
+            w.ret(w.e(ir.FunctionCall(b.f, [w.p[0], w.c(1, t), cnt], w.nm("r"), getattr(ir, t))))
+            return b.m
+        add("tail:rotate:%s" % t, tail_rot, "f", [t, t])
+
+        def tail_swap(t=t):
+            from ppci import ir
+            b = B("sw", t, [t, t, t])
+            a, bb, n = b.p
+            rec, base = b.block("rec"), b.block("base")
+            b.cj(n, "==", b.c(0, t), base, rec)
+            b.at(base).ret(b.bin(b.bin(a, "*", b.c(3, t), t), "+", bb, t))
+            b.at(rec)
+            n1 = b.bin(n, "-", b.c(1, t), t)
+            r = b.e(ir.FunctionCall(b.f, [bb, a, n1], b.nm("r"), getattr(ir, t)))   # plain swap of two parameters
+            b.ret(r)
+            w = B("f", t, [t, t], module=b.m)
+            cnt = w.bin(w.p[1], "&", w.c(3, t), t)
+            w.ret(w.e(ir.FunctionCall(b.f, [w.p[0], w.c(5, t), cnt], w.nm("r"), getattr(ir, t))))
+            return b.m
+        add("tail:swap:%s" % t, tail_swap, "f", [t, t])
     return out
 
 
